@@ -350,6 +350,44 @@ non-void material) reports its material's density instead (`matDensity`, a param
 def Comp.density (ph : Phys) (matDensity : Rat) (isVoid : Bool) (c : Comp) : Rat :=
   if c.nd.isEmpty && !isVoid then matDensity else _root_.ArmiVerif.Compo.density (compOps ph) ph c
 
+/-! ## nuclide selections (`_getNuclidesFromSpecifier`): a nuclide name, an element symbol, or a list of them -/
+
+/-- element table: `elem s = some isotopes` when `s` is an element symbol (`elements.bySymbol[s].nuclides` without
+the natural-abundance pseudo nuclide), `none` otherwise (`KeyError`) — a parameter, read from the real tables -/
+abbrev ElemTable := Nuc → Option (List Nuc)
+
+/-- `_getNuclidesFromSpecifier(spec)` for a (flattened) list of names (`resolveOne` per name), resolved against
+the nuclides present `here`: a name present here stays; otherwise an element symbol expands to all its isotopes; otherwise the name
+stays (it will contribute nothing). The result is a SET (`sorted(set(...))`): duplicates count once. -/
+def resolveOne (elem : ElemTable) (here : List Nuc) (s : Nuc) : List Nuc :=
+  if here.contains s then [s] else match elem s with
+    | some l => l
+    | none => [s]
+
+def resolveSpec (elem : ElemTable) (here : List Nuc) (spec : List Nuc) : List Nuc :=
+  dedup (spec.flatMap (resolveOne elem here))
+
+/-- `Component.getMass(spec)`: `calculateMassDensity({n: N_n for n in resolved}) * volume / parent symmetry factor`;
+the specifier is resolved against THIS component's nuclides -/
+def Comp.massSel (ph : Phys) (elem : ElemTable) (c : Comp) (spec : List Nuc) : Rat :=
+  sumBy (fun n => c.nd.get n * ph.aw n / ph.K) (resolveSpec elem c.nd.keys spec) * (c.vol / c.psym)
+
+/-- `Composite.getMass(spec)`: sum over the children (each child resolves the specifier for itself) -/
+def Node.massSel {α : Type} (f : α → List Nuc → Rat) (p : Node α) (spec : List Nuc) : Rat :=
+  sumBy (fun c => f c spec) p.kids
+
+def blockMassSel (ph : Phys) (elem : ElemTable) : Node Comp → List Nuc → Rat := Node.massSel (Comp.massSel ph elem)
+def assemMassSel (ph : Phys) (elem : ElemTable) : Node (Node Comp) → List Nuc → Rat :=
+  Node.massSel (blockMassSel ph elem)
+def coreMassSel (ph : Phys) (elem : ElemTable) : Node (Node (Node Comp)) → List Nuc → Rat :=
+  Node.massSel (assemMassSel ph elem)
+
+/-- `getMassFrac(spec)`: the specifier is resolved against THIS object's nuclides; the listed mass fractions are
+summed -/
+def massFracSel {α : Type} (o : Ops α) (ph : Phys) (elem : ElemTable) (a : α) (spec : List Nuc) : Rat :=
+  let mf := massFracs o ph a
+  sumBy (fun n => NDens.get mf n) (resolveSpec elem (o.nucs a) spec)
+
 /-! ## the three concrete levels -/
 
 abbrev Block := Node Comp
